@@ -2,7 +2,7 @@
    finite generated table). *)
 From Coq Require Import List String ZArith NArith Bool.
 Import ListNotations.
-From VF Require Import C16.Model C16.Proofs C16.ProofsF C16.ProofsA C16.ProofsB1 C16.ProofsB2 C16.ProofsB3 C16.ProofsB4 C16.ProofsB5 C16.ProofsS.
+From VF Require Import C16.Model C16.Proofs C16.ProofsF C16.ProofsA C16.ProofsB1 C16.ProofsB2 C16.ProofsB3 C16.ProofsB4 C16.ProofsB5 C16.ProofsS C16.ProofsD1 C16.ProofsD2 C16.ProofsD3.
 Local Open Scope string_scope.
 Local Open Scope list_scope.
 
@@ -301,6 +301,52 @@ Theorem service_key_refs_mixed_refuted :
   out_keys "did:a" "" (map (abs_id "did:a" "") keys) (key_table "did:a" "" keys) = ["did:a#k1"; "did:a#k1"].
 Proof. vm_compute. reflexivity. Qed.
 Print Assumptions service_key_refs_mixed_refuted.
+
+(* ---- DID documents: RE-PARSE EQUALITY ----
+   For every DID document the parser accepts (context v1 with or without @base, id, alsoKnownAs, verification
+   methods, services, the five relationships), parsing what JSONBytes wrote yields the same document.
+   Guard (did_guard): method ids are pairwise different and no method id is @base (or the id) followed by another
+   method's id; keys and method ids are not empty; the key lists of a service spell every key one way and the
+   routing keys inside a DIDComm V2 entry are not re-spelled by the service-level table (svc_in_ok). *)
+Theorem did_reparse_equal : forall j d,
+  parse_did Fixed j = Some d -> did_guard j d -> parse_did Fixed (marshal_did d) = Some d.
+Proof. exact did_reparse. Qed.
+Print Assumptions did_reparse_equal.
+
+(* its parts: the @context (with @base) re-parses to itself, a reference resolves to the method it was written
+   for, a service is stable *)
+Theorem did_context_reparse : forall o c b, did_context o = (c, b) -> did_context c = (c, b).
+Proof. exact ctx_reparse. Qed.
+Print Assumptions did_context_reparse.
+
+Theorem reference_resolves_to_its_method : forall did base vms v,
+  ids_ok did base vms -> In v vms -> find_vm did base vms (vm_id_text did base v) = Some v.
+Proof. exact find_vm_self. Qed.
+Print Assumptions reference_resolves_to_its_method.
+
+Theorem service_reparse_stable : forall did base m, svc_in_ok did base m ->
+  roundtrip_service did base (roundtrip_service did base m) = roundtrip_service did base m.
+Proof. exact service_stable. Qed.
+Print Assumptions service_reparse_stable.
+
+(* the typed members of a service: id as spelled, type (string or array) and priority as given, key lists as spelled *)
+Theorem service_typed_members_roundtrip : forall did base m, svc_in_ok did base m ->
+  roundtrip_service did base m = svc_props m ++ entries_obj (svc_entries did base m).
+Proof. exact rs_entries. Qed.
+Print Assumptions service_typed_members_roundtrip.
+
+Example did_reparse_nonvacuous :
+  let j := JObj [("@context", JArr [JStr "https://www.w3.org/ns/did/v1"; JObj [("@base", JStr "did:a:long")]]); ("id", JStr "did:a");
+                 ("verificationMethod", JArr [JObj [("id", JStr "#k1"); ("type", JStr "T"); ("controller", JStr "did:c"); ("publicKeyBase58", JStr "abc")]]);
+                 ("authentication", JArr [JStr "#k1"; JObj [("id", JStr "did:a#k2"); ("type", JStr "T"); ("controller", JStr ""); ("publicKeyMultibase", JStr "zabc")]]);
+                 ("service", JArr [JObj [("id", JStr "#s"); ("type", JArr [JStr "A"; JStr "B"]); ("priority", JNum 1%Z); ("accept", JArr [JStr "x"]);
+                                         ("routingKeys", JArr [JStr "#k1"]); ("serviceEndpoint", JArr [JObj [("uri", JStr "u"); ("routingKeys", JArr [JStr "did:x#r"])]])]])] in
+  match parse_did Fixed j with
+  | Some d => option_map marshal_did (parse_did Fixed (marshal_did d)) = Some (marshal_did d) /\ d_base d = "did:a:long" /\
+              List.length (d_svcs d) = 1%nat
+  | None => False
+  end.
+Proof. vm_compute. repeat split. Qed.
 
 (* ---- JWKs (publicKeyJwk, jwk.JWK) ----
    what the jwk package writes for a JWK it has read: exactly the members it knows for the key type (generated list
